@@ -276,6 +276,21 @@ def inj_template_conn_refused(files, cfg, level):
     lvl(cfg, level)["require-template-schema-exists"] = False
 
 
+_SERVER = None   # loopback HTTP helper, started by body()
+
+
+def inj_template_status(code):
+    """an http template whose host answers with a 2xx status other than 200 that does not carry the template: 206 with the first half of it (the half is
+    literal text that parses and formats), 204 without a body (under the noop formatter an empty rendering is not rejected downstream either)"""
+    def inj(files, cfg, level):
+        _SERVER.put("st/t.templ", "package {{.PkgName}}\n\n" + "".join("// literal line %03d of a template that is mostly text\n" % k for k in range(80)) +
+                    "{{range .Interfaces}}type {{.StructName}} struct{}\n{{end}}")
+        lvl(cfg, level)["template"] = "http://127.0.0.1:%d/status/%d/st/t.templ" % (_SERVER.http, code)
+        lvl(cfg, level)["require-template-schema-exists"] = False
+        lvl(cfg, level)["formatter"] = "noop"
+    return inj
+
+
 def inj_self_ref_file(files, cfg, level):
     lvl(cfg, level)["structname"] = "Y{{.StructName}}"
     lvl(cfg, level)["filename"] = "{{.StructName}}.go"
@@ -367,6 +382,8 @@ INVALID = {
     "cyclic-templated-value-alternating-noop-formatter": (["root", "iface"], inj_self_ref_alternating),
     "cyclic-templated-value-two-references-in-literal": (["root", "cfg"], inj_self_ref_squaring),
     "http-template-connection-refused": (["root", "iface"], inj_template_conn_refused),
+    "http-template-answered-206-partial-content": (["root", "iface"], inj_template_status(206)),
+    "http-template-answered-204-no-content": (["root", "iface"], inj_template_status(204)),
     "cyclic-templated-value-noop-formatter": (ALL_LEVELS, inj_self_ref_noop),
     "cyclic-templated-value-two-keys-noop-formatter": (["root", "iface"], inj_self_ref_pkgname_noop),
     "templated-value-syntax-error": (ALL_LEVELS, inj_tmpl_syntax),
@@ -387,7 +404,7 @@ INVALID = {
     "wrong-value-type": (["root", "pkg", "iface"], inj_wrong_type),
     "packages-wrong-type": (["root"], inj_wrong_type_packages),
 }
-NOPAIR = {"cyclic-templated-value-alternating-noop-formatter", "boilerplate-file-unreadable", "cyclic-templated-value-noop-formatter", "cyclic-templated-value-two-keys-noop-formatter",
+NOPAIR = {"http-template-answered-206-partial-content", "http-template-answered-204-no-content", "cyclic-templated-value-alternating-noop-formatter", "boilerplate-file-unreadable", "cyclic-templated-value-noop-formatter", "cyclic-templated-value-two-keys-noop-formatter",
           "schema-required-key-no-template-data", "schema-required-key-empty-template-data"}
 # the include/exclude regexes only matter when the package is not `all` and has unlisted interfaces
 REGEX_CLASSES = {"invalid-include-regex", "invalid-exclude-regex"}
@@ -830,7 +847,17 @@ def eval_case(ctx, case):
 
 
 def body(ctx, replay=None):
+    global _SERVER
+    from .c12 import Server
     core.build_mockery(ctx)
+    _SERVER = Server(ctx)
+    try:
+        return _body(ctx, replay)
+    finally:
+        _SERVER.close()
+
+
+def _body(ctx, replay=None):
     ctx.level = "fault_enumeration"
     ctx.rule = ("invalid cases: %d input classes x every level where the key is legal x {alone, inside a valid 3-package configuration} "
                 "(thorough adds random pairs of faults); unusual cases: 8 go.mod spellings x in-package/out-of-package placement, function-local types "
